@@ -234,11 +234,14 @@ def translate_ai():
     # the transcoder: lookup keyed by exact name, 4-byte pack/unpack
     tm = load_module(H + "ai_script_transcoder")
     src = ast.unparse(tm.classes["AiScriptTranscoder"])
-    for need in ["script.value.name: script.value for script in KnownAiScript", "struct.pack('I', ai_script_value)",
-                 "packed_bytes.decode(_STRING_ENCODING)", "ai_script_name in cls._AI_SCRIPT_LOOKUP",
-                 "UnknownAiScript(_name=ai_script_name", "ai_script.name.encode(_STRING_ENCODING)", "struct.unpack('I', name_as_bytes)[0]"]:
-        if need not in src:
-            raise TranslatorGap(f"AiScriptTranscoder lacks `{need}`")
+    # shapes, with local variable names left to the author (\\w+ / back-references)
+    for need in [r"(\w+)\.value\.name: \1\.value for \1 in KnownAiScript",
+                 r"(\w+) = struct\.pack\('I', \w+\)\s+(\w+) = \1\.decode\(_STRING_ENCODING\)",
+                 r"\w+ in cls\._AI_SCRIPT_LOOKUP",
+                 r"UnknownAiScript\(_name=\w+",
+                 r"(\w+) = \w+\.name\.encode\(_STRING_ENCODING\)\s+\w+ = struct\.unpack\('I', \1\)\[0\]"]:
+        if not re.search(need, src):
+            raise TranslatorGap(f"AiScriptTranscoder lacks the shape `{need}`")
     return out
 
 
